@@ -1134,77 +1134,111 @@ Definition p521_gx : Z := 266174080205021706322876871672336096072985916875697314
 Definition p521_gy : Z := 3757180025770020463545507224491183603594455134769762486694567779615544477440556316691234405012945539562144444537289428522585666729196580810124344277578376784.
 Definition p521_y1 : Z := 226550527432254644762927155718498869710358906817053425319320865507781004639099725838657309164078643711530506222673069010331048069570407113457901669103973732.
 
-Lemma cli_raw_pub_is_export x y ks : ks = 256 \/ ks = 384 -> cli_convert_raw_pub x y ks = ecc_export_nxp x y ks.
-Proof. intros [-> | ->]; reflexivity. Qed.
+Lemma cli_raw_pub_is_export x y ks : cli_convert_raw_pub x y ks = ecc_export_nxp x y ks.
+Proof. reflexivity. Qed.
 
 Lemma cli_raw_pub_roundtrip_lemma x y cv c ks b pem rv :
-  curve_ok cv c ks -> cv = 0 \/ cv = 1 ->
+  curve_ok cv c ks ->
   0 <= x < curve_p ks -> 0 <= y < curve_p ks -> on_curve ks x y = true ->
   cli_convert_raw_pub x y ks = Ok b -> pem_like b = false ->
   cli_reconstruct b (pub_parse b pem None rv) = Ok (CPub (KEcc cv x y)).
 Proof.
-  intros HC Hcv Hx Hy Hon Hex Hpem.
-  assert (Hks : ks = 256 \/ ks = 384).
-  { destruct HC as [(-> & _ & ->)|[(-> & _ & ->)|(-> & _ & ->)]]; [tauto|tauto|lia]. }
-  rewrite (cli_raw_pub_is_export x y ks Hks) in Hex.
+  intros HC Hx Hy Hon Hex Hpem.
+  rewrite cli_raw_pub_is_export in Hex.
   destruct (pub_parse_raw_ecc_lemma x y cv c ks b pem rv HC Hx Hy Hon Hex Hpem) as (P & _ & _).
   rewrite P. reflexivity.
 Qed.
 
 Lemma pub_parse_short_fails b pem rv :
-  zlen b = 32 \/ zlen b = 48 \/ zlen b = 65 \/ zlen b = 130 -> pem_like b = false -> pub_parse b pem None rv = Err 1%N.
+  zlen b = 32 \/ zlen b = 48 \/ zlen b = 66 -> pem_like b = false -> pub_parse b pem None rv = Err 1%N.
 Proof.
   intros HL Hpem. unfold pub_parse. rewrite Hpem.
   unfold ecc_recreate_from_data. change (curve_list (-1)) with ecc_curves.
   unfold rsa_recreate_from_data, rsa_recreate_public_numbers, rsa_key_sizes. cbn [rsa_recreate_tbl].
-  destruct HL as [-> |[-> |[-> | ->]]]; reflexivity.
+  destruct HL as [-> |[-> | ->]]; reflexivity.
 Qed.
 
 Lemma cli_raw_prv_roundtrip_lemma d cv c ks pem rv :
-  curve_ok cv c ks -> cv = 0 \/ cv = 1 -> 1 <= d < curve_n ks ->
+  curve_ok cv c ks -> 1 <= d < curve_n ks ->
   exists b, cli_convert_raw_prv d ks = Ok b /\
             (pem_like b = false -> cli_reconstruct b (pub_parse b pem None rv) = Ok (CPrv cv d)).
 Proof.
-  intros HC Hcv Hd.
-  assert (K : (cv = 0 /\ c = 32 /\ ks = 256) \/ (cv = 1 /\ c = 48 /\ ks = 384)).
-  { destruct HC as [(-> & -> & ->)|[(-> & -> & ->)|(-> & -> & ->)]]; [tauto|tauto|lia]. }
-  assert (Hw : cli_raw_width ks = c) by (destruct K as [(_ & -> & ->)|(_ & -> & ->)]; reflexivity).
-  assert (Hn : curve_n ks < 2 ^ (8 * c)) by (destruct K as [(_ & -> & ->)|(_ & -> & ->)]; reflexivity).
-  assert (Hc : 0 <= c) by (destruct K as [(_ & -> & _)|(_ & -> & _)]; lia).
+  intros HC Hd.
+  assert (Hw : cli_raw_width ks = c) by (destruct HC as [(_ & -> & ->)|[(_ & -> & ->)|(_ & -> & ->)]]; reflexivity).
+  assert (Hn : curve_n ks < 2 ^ (8 * c)) by (destruct HC as [(_ & -> & ->)|[(_ & -> & ->)|(_ & -> & ->)]]; reflexivity).
+  assert (Hc : 0 <= c) by (destruct HC as [(_ & -> & _)|[(_ & -> & _)|(_ & -> & _)]]; lia).
   unfold cli_convert_raw_prv. rewrite Hw. rewrite to_bytes_be_ok by lia.
   eexists. split; [reflexivity|]. intros Hpem.
   set (b := be_enc (Z.to_nat c) (Z.to_N d)).
   assert (HL : zlen b = c) by (unfold b, zlen; rewrite be_enc_length; lia).
-  rewrite pub_parse_short_fails; [|destruct K as [(_ & -> & _)|(_ & -> & _)]; lia|exact Hpem].
+  rewrite pub_parse_short_fails; [|destruct HC as [(_ & -> & _)|[(_ & -> & _)|(_ & -> & _)]]; lia|exact Hpem].
   unfold cli_reconstruct. rewrite HL.
   assert (Hd' : from_bytes_be b = d) by (unfold b; apply from_bytes_be_enc; lia).
   rewrite Hd'.
   assert (E : forall k, ((1 <=? d) && (d <? curve_n k)) = true \/ ~ d < curve_n k).
   { intros k. destruct (Z.ltb_spec d (curve_n k)); [left|right; lia].
     apply andb_true_iff; split; [apply Z.leb_le; lia|reflexivity]. }
-  destruct K as [(-> & -> & ->)|(-> & -> & ->)].
+  destruct HC as [(-> & -> & ->)|[(-> & -> & ->)|(-> & -> & ->)]].
   - change (key_len_curve 32) with (@Ok Z 0). cbv beta iota. change (lookup ecc_curves 0) with (Some 256). cbv beta iota.
-    change (32 <=? cli_prv_max) with true. cbv iota. destruct (E 256) as [-> | N]; [reflexivity|lia].
+    change ((32 <=? cli_prv_max) || (32 =? cli_prv_extra)) with true. cbv iota. destruct (E 256) as [-> | N]; [reflexivity|lia].
   - change (key_len_curve 48) with (@Ok Z 1). cbv beta iota. change (lookup ecc_curves 1) with (Some 384). cbv beta iota.
-    change (48 <=? cli_prv_max) with true. cbv iota. destruct (E 384) as [-> | N]; [reflexivity|lia].
+    change ((48 <=? cli_prv_max) || (48 =? cli_prv_extra)) with true. cbv iota. destruct (E 384) as [-> | N]; [reflexivity|lia].
+  - change (key_len_curve 66) with (@Ok Z 2). cbv beta iota. change (lookup ecc_curves 2) with (Some 521). cbv beta iota.
+    change ((66 <=? cli_prv_max) || (66 =? cli_prv_extra)) with true. cbv iota. destruct (E 521) as [-> | N]; [reflexivity|lia].
 Qed.
 
-(* P-521: 65-byte numbers *)
-Lemma cli_raw_p521_refuted_lemma :
-  (on_curve 521 p521_gx p521_gy = true /\ cli_convert_raw_pub p521_gx p521_gy 521 = Err 2%N) /\
-  (on_curve 521 1 p521_y1 = true /\
-   exists b, cli_convert_raw_pub 1 p521_y1 521 = Ok b /\ zlen b = 130 /\ pem_like b = false /\
-             forall rv, cli_reconstruct b (pub_parse b None None rv) = Err 1%N) /\
-  (1 <= 2 ^ 520 < curve_n 521 /\ cli_convert_raw_prv (2 ^ 520) 521 = Err 2%N) /\
-  (exists b, cli_convert_raw_prv 5 521 = Ok b /\ zlen b = 65 /\ pem_like b = false /\
-             forall rv, cli_reconstruct b (pub_parse b None None rv) = Err 1%N).
+(* non-vacuity for P-521: the generator point and the scalar 2^520 (both need 66 bytes) convert and read back *)
+Example cli_raw_p521_instances :
+  on_curve 521 p521_gx p521_gy = true /\
+  (exists b, cli_convert_raw_pub p521_gx p521_gy 521 = Ok b /\ zlen b = 132 /\
+             cli_reconstruct b (pub_parse b None None true) = Ok (CPub (KEcc 2 p521_gx p521_gy))) /\
+  (exists b, cli_convert_raw_prv (2 ^ 520) 521 = Ok b /\ zlen b = 66 /\
+             cli_reconstruct b (pub_parse b None None true) = Ok (CPrv 2 (2 ^ 520))).
 Proof.
-  split; [split; vm_compute; reflexivity|].
-  split.
-  { split; [vm_compute; reflexivity|]. eexists. split; [vm_compute; reflexivity|].
-    split; [vm_compute; reflexivity|]. split; [vm_compute; reflexivity|]. intros [|]; vm_compute; reflexivity. }
-  split.
-  { split; [split; [discriminate|reflexivity]|vm_compute; reflexivity]. }
-  eexists. split; [vm_compute; reflexivity|].
-  split; [vm_compute; reflexivity|]. split; [vm_compute; reflexivity|]. intros [|]; vm_compute; reflexivity.
+  split; [vm_compute; reflexivity|]. split; eexists; (split; [vm_compute; reflexivity|]); split; vm_compute; reflexivity.
 Qed.
+
+(* an invalid scalar in a 66-byte file is refused by the primitive with a ValueError (kind 2), as for 32/48 bytes *)
+Example cli_raw_bad_scalar :
+  cli_reconstruct (repeat 0%N 66) (pub_parse (repeat 0%N 66) None None true) = Err 2%N /\
+  cli_reconstruct (repeat 0%N 32) (pub_parse (repeat 0%N 32) None None true) = Err 2%N.
+Proof. split; vm_compute; reflexivity. Qed.
+
+(* ====================================================================================== *)
+(* PublicKeyEcc.verify_signature: candidate list                                            *)
+(* ====================================================================================== *)
+(* every signature is offered to the primitive as it is; nothing but the signature itself and the DER re-encoding of
+   its raw reading is ever offered *)
+Lemma verify_candidates_self sig ks :
+  exists l, verify_candidates sig ks = Ok l /\ In sig l /\
+            (forall d, In d l -> d = sig \/ (zlen sig = signature_size ks /\ verify_reencode sig ks = Ok d)).
+Proof.
+  unfold verify_candidates. destruct (zlen sig =? signature_size ks) eqn:E.
+  - assert (Hr : exists d, verify_reencode sig ks = Ok d).
+    { unfold verify_reencode. rewrite E. unfold encode_dss.
+      assert (F : forall l, (from_bytes_be l <? 0) = false) by (intros l; apply Z.ltb_ge; unfold from_bytes_be; lia).
+      rewrite !F. eexists; reflexivity. }
+    destruct Hr as [d Hd]. rewrite Hd. cbn [bind]. change (insert_at ecc_verify_first d [sig]) with [d; sig].
+    eexists. split; [reflexivity|]. split; [right; left; reflexivity|].
+    intros d' [<-|[<-|[]]]; [right; split; [apply Z.eqb_eq; exact E|reflexivity]|left; reflexivity].
+  - eexists. split; [reflexivity|]. split; [left; reflexivity|]. intros d' [<-|[]]. left; reflexivity.
+Qed.
+
+Lemma verify_candidates_sound_lemma r s cv c ks :
+  curve_ok cv c ks -> 0 <= r < 2 ^ (8 * c) -> 0 <= s < 2 ^ (8 * c) ->
+  (exists l, verify_candidates (raw_sig c r s) ks = Ok l /\ In (der_sig (Z.to_N r) (Z.to_N s)) l) /\
+  (exists l, verify_candidates (der_sig (Z.to_N r) (Z.to_N s)) ks = Ok l /\ In (der_sig (Z.to_N r) (Z.to_N s)) l).
+Proof.
+  intros HC Hr Hs. split.
+  - destruct (curve_ok_sizes _ _ _ HC) as (_ & H2 & _).
+    assert (Hc0 : 0 <= c) by (destruct HC as [(_ & -> & _)|[(_ & -> & _)|(_ & -> & _)]]; lia).
+    assert (HL : zlen (raw_sig c r s) = signature_size ks).
+    { rewrite H2. unfold raw_sig. rewrite zlen_app. unfold zlen. rewrite !be_enc_length. lia. }
+    unfold verify_candidates. rewrite HL, Z.eqb_refl.
+    rewrite (verify_reencode_raw r s cv c ks HC Hr Hs). cbn [bind].
+    change (insert_at ecc_verify_first ?d ?l) with (d :: l).
+    eexists. split; [reflexivity|left; reflexivity].
+  - destruct (verify_candidates_self (der_sig (Z.to_N r) (Z.to_N s)) ks) as (l & E & I & _).
+    exists l. split; assumption.
+Qed.
+
